@@ -7,7 +7,7 @@ open Sdc Sdc.Invocation
              `pstate n` -> counter, mdib, in-flight ids, queue ids of SCO 0..n-1
   consumer:  `creset maxlen` | `response fut tx State` | `part uid tx State` | `drop fut` -> completions of this step
              `cstate` -> buffered uids
-  id lock:   `lts c0 <L|U> nthreads i1 i2 …` -> issued (thread:id) list and the result of every thread -/
+  id lock:   `lts c0 <L|U|R> nthreads i1 i2 …` -> issued (thread:id) list and the result of every thread -/
 
 structure DState where
   p : Prov
@@ -82,7 +82,8 @@ def stepLine (d : DState) (line : String) : DState × String :=
     | none => (d, "bad-op")
   | ["cstate"] => (d, s!"recent=[{Io.natList (d.c.recent.map (·.uid))}] done={d.c.done.length}")
   | "lts" :: c0 :: prog :: n :: sched =>
-    let prog? := if prog == "L" then some Lts.lockedProg else if prog == "U" then some Lts.unlockedProg else none
+    let prog? := if prog == "L" then some Lts.lockedProg else if prog == "U" then some Lts.unlockedProg
+      else if prog == "R" then some Lts.lateReadProg else none
     match c0.toNat?, prog?, n.toNat?, Io.parseNats sched with
     | some c0, some pr, some n, some sc => (d, ltsRun c0 pr n sc)
     | _, _, _, _ => (d, "bad-op")
